@@ -107,6 +107,15 @@ func (dw *deferWriter) Close() error {
 	return dw.w.Close()
 }
 
+// abandoned reports errOutputBroken if something was written through dw and
+// the output, if it is still open, has been left in the middle of an element.
+func (dw *deferWriter) abandoned() error {
+	if lwc, ok := dw.w.(*lockWriteCloser); ok {
+		return lwc.abandoned()
+	}
+	return nil
+}
+
 func (dw *deferWriter) Flush() error {
 	if dw.w == nil {
 		return nil
@@ -715,6 +724,13 @@ func handleInputStream(s *Session, handler Handler) (err error) {
 		return err
 	}
 
+	// A handler that returns with an element of its own still open, or one of
+	// whose tokens the output refused, leaves the stream in the middle of an
+	// element: nothing well formed can follow, in particular no reply.
+	if err := w.abandoned(); err != nil {
+		return err
+	}
+
 	iqNeedsResp := typ == string(stanza.GetIQ) || typ == string(stanza.SetIQ)
 	// If the user did not write a response to an IQ, send a default one.
 	if iqOk && iqNeedsResp && !rw.wroteResp {
@@ -834,6 +850,10 @@ type lockWriteCloser struct {
 	m       sync.Locker
 	started bool
 	broken  bool
+	// depth is the nesting of what has been written through this writer,
+	// refused whether one of its tokens was not accepted.
+	depth   int
+	refused bool
 }
 
 func (lwc *lockWriteCloser) EncodeToken(t xml.Token) error {
@@ -853,9 +873,39 @@ func (lwc *lockWriteCloser) EncodeToken(t xml.Token) error {
 		lwc.broken = lwc.w.outputBroken()
 	}
 	if lwc.broken {
+		lwc.refused = true
 		return errOutputBroken
 	}
-	return lwc.w.out.e.EncodeToken(t)
+	if err := lwc.w.out.e.EncodeToken(t); err != nil {
+		lwc.refused = true
+		return err
+	}
+	switch t.(type) {
+	case xml.StartElement:
+		lwc.depth++
+	case xml.EndElement:
+		lwc.depth--
+	}
+	return nil
+}
+
+// abandoned reports errOutputBroken if the output is still open and what has
+// been written through this writer left it in the middle of an element (or a
+// token was refused).
+func (lwc *lockWriteCloser) abandoned() error {
+	if lwc.err != nil {
+		return nil
+	}
+	lwc.w.stateMutex.RLock()
+	if lwc.w.state&OutputStreamClosed == OutputStreamClosed {
+		lwc.w.stateMutex.RUnlock()
+		return nil
+	}
+	lwc.w.stateMutex.RUnlock()
+	if lwc.refused || lwc.depth != 0 {
+		return errOutputBroken
+	}
+	return nil
 }
 
 func (lwc *lockWriteCloser) Flush() error {
